@@ -6,7 +6,7 @@ open Pox Pox.Proto Pox.Core
 the machine itself (`Model/Core.lean`) works on numbers.
 
 request  {"repaired":bool, "fuel":n, "bodies":[[act…]…], "onGoingUp":[act…], "onUp":…, "onGoingDown":…, "onDown":…,
-          "sinks":[{"attrs":[str…], "explicit":[str…], "met":body|null, "set_attrs":bool, "short_attrs":bool}…], "events":[[comp,[event…]]…], "ops":[op…]}
+          "sinks":[{"attrs":[callable attr…], "noncallable":[attr…], "explicit":[str…], "met":body|null, "set_attrs":bool, "short_attrs":bool}…], "events":[[comp,[event…]]…], "ops":[op…]}
 act      {"a":"register","n":str} {"a":"declare","deps":[str…],"body":k} {"a":"listen","sink":k} {"a":"getDeferral"}
          {"a":"release","k":i} {"a":"quit"} {"a":"raise"}          op = act | {"a":"goUp"} | {"a":"tick"}
 response {"log":[event…], "marks":[log length after each op], "comps":[str…], "pending":[id…], "outstanding":n, "decls":[[id,body]…],
@@ -23,7 +23,8 @@ def intern (s : String) : PM Nat := do
 def liftE {α} (e : Except String α) : PM α := StateT.lift e
 
 structure SinkD where
-  attrs : List String
+  attrs : List String             -- callable attributes (methods)
+  noncallable : List String       -- other attributes of dir(sink): parsed for component names, never bound
   explicit : List String
   met : Option Nat
   setAttrs : Bool
@@ -43,7 +44,7 @@ def parseAct (nb : Nat) (sinks : List SinkD) (j : J) : PM Act := do
       match sinks[k]? with
       | none => throw s!"sink {k} out of range"
       | some s =>
-        let ds ← (listenDeps s.explicit s.attrs).mapM intern
+        let ds ← (listenDeps s.explicit (s.attrs ++ s.noncallable)).mapM intern
         pure (.listen ds (nb + k))
   | "getDeferral" => pure .getDeferral
   | "release" => do pure (.release (← liftE (j.nat "k")))
@@ -63,11 +64,12 @@ def parseScript (nb : Nat) (sinks : List SinkD) (j : J) (k : String) : PM (List 
 
 def parseSink (j : J) : Except String SinkD := do
   let attrs ← (← j.array "attrs").mapM J.asStr
+  let noncallable ← (← j.array "noncallable").mapM J.asStr
   let explicit ← (← j.array "explicit").mapM J.asStr
   let met ← j.optNat "met"
   let setAttrs ← j.boolean "set_attrs"
   let short ← j.boolean "short_attrs"
-  pure { attrs, explicit, met, setAttrs, short }
+  pure { attrs, noncallable, explicit, met, setAttrs, short }
 
 def evJ (tbl : List String) : Ev → J
   | .fired id snap => J.arr [J.str "fired", J.ofNat id, J.arr (snap.map fun n => J.str (tbl.getD n "?"))]
@@ -119,7 +121,7 @@ def handleM (j : J) : PM J := do
       match sinks[k]? with
       | none => none
       | some s =>
-        let deps := listenDeps s.explicit s.attrs
+        let deps := listenDeps s.explicit (s.attrs ++ s.noncallable)
         let fired := firedIds.contains e.id
         let bound := if fired then wiring deps s.attrs (fun c => (evTbl.find? (·.1 = c)).map (·.2)) else []
         let set := if fired then sinkAttrs s.setAttrs s.short deps else []
